@@ -10,7 +10,7 @@ Import ListNotations.
 From VIsa Require Import IsaState ExecImpl ExecSpec ExecImplV ExecSpecV ExecProofs ExecRows ExecVProofs ExecVRowsA ExecBrev ExecVProofs64 ExecVRows64 ExecVThm ExecRefute.
 From VIsa Require Import ExecImplM ExecSpecM ExecMProofs ExecMFlat ExecMDs ExecMThm.
 (* binary32 part (last section of this file): Flocq; these imports do not change the assumptions of the theorems above *)
-From VIsa Require Import IsaFloat ExecImplF ExecSpecF ExecFRows ExecFThm.
+From VIsa Require Import IsaFloat ExecImplF ExecSpecF ExecFRows ExecFCvt ExecVProofs64 ExecFRows64 ExecFThm ExecFThm64.
 Open Scope Z_scope.
 
 (** SOP2, 32-bit rows: every opcode either ALU implements (after the repairs of
@@ -321,6 +321,40 @@ Theorem impl_eq_spec_float : forall a st i,
 Proof. exact float_agree. Qed.
 Print Assumptions impl_eq_spec_float.
 
+(** The float range tests of the v_cvt_u32_f32 / v_cvt_i32_f32 handlers (NaN,
+    src <= 0, src >= 2^32; src >= 2^31, src <= -2^31; otherwise the in-range Go
+    conversion) are truncation toward zero followed by saturation on the
+    integers, for every bit pattern (rows (VOP1, 7) and (VOP1, 8) of [frows]). *)
+Theorem cvt_range_tests_are_saturation : forall x, 0 <= x < W32 ->
+  go_cvt_u32 x = cvt_u32_f32 x /\ u32 (go_cvt_i32 x) = cvt_i32_f32 x mod W32.
+Proof. intros x Hx. split; [apply (cvt_u32_eq x Hx)|apply (cvt_i32_eq x Hx)]. Qed.
+Print Assumptions cvt_range_tests_are_saturation.
+
+(** binary64 arithmetic and the conversions that read or write a register pair
+    ([frows64]: v_cvt_f64_i32, v_cvt_f32_f64, v_cvt_f64_f32, v_add_f64,
+    v_mul_f64, both ALUs); [fmodes_of] says how each operand is read. *)
+Theorem impl_eq_spec_float64 : forall a st i,
+  In (i_fmt i, i_op i) frows64 -> wf st -> 0 <= i_lit i < W32 ->
+  (forall d r, vdesc_f a (i_fmt i) (i_op i) = Some d -> vrow_f a (i_fmt i) (i_op i) = Some r ->
+     let '(m0, m1, m2) := fmodes_of (i_fmt i) (i_op i) in vadm64 m0 m1 m2 d r i) ->
+  agree_vf a st i.
+Proof. exact float_agree64. Qed.
+Print Assumptions impl_eq_spec_float64.
+
+(** CDNA3 v_cvt_f64_u32 writes only the low dword of its binary64 result (the
+    decode table declares a 32-bit destination).  Full-strength statement: the
+    row (VOP1, 22) agrees like the rows of [frows64]; refuted by the witness;
+    what holds is that the dword that is written is the low dword of the
+    manual's result (the high dword keeps its old content). *)
+Theorem cvt_f64_u32_refuted : exists st i,
+  i_fmt i = F_VOP1 /\ i_op i = 22 /\ wf st /\ ~ agree_vf CDNA3 st i.
+Proof. exists (fst0 0), cvt_f64_u32_witness. exact c_cvt_f64_u32. Qed.
+Print Assumptions cvt_f64_u32_refuted.
+Theorem cvt_f64_u32_partial : forall d r, vdesc_f CDNA3 F_VOP1 22 = Some d -> vrow_f CDNA3 F_VOP1 22 = Some r ->
+  forall a b c cin, exists v, fst (vd_f d a b c cin) = Some v /\ u32 v = r_val r (u32 a) b c cin mod W32.
+Proof. exact c_cvt_f64_u32_low. Qed.
+Print Assumptions cvt_f64_u32_partial.
+
 (** The integer theorems are statements about the complete model as well. *)
 Theorem complete_model_on_integer_rows : forall a st i,
   In (i_fmt i, i_op i) ((F_VOP1, 2) :: vrows a ++ vrows64) ->
@@ -355,3 +389,10 @@ Qed.
 Example ex_float_value :  (* 1.0 + 2.0 = 3.0; 0.1f * 3.0f rounds to 0x3e99999a *)
   f32_add 1065353216 1073741824 = 1077936128 /\ f32_mul 1036831949 1077936128 = 1050253722.
 Proof. vm_compute. split; reflexivity. Qed.
+
+Example ex_float64_value :  (* 1.0 + 2.0 = 3.0 in binary64; float32(0.1) = 0x3dcccccd; float64(1.5f) *)
+  f64_add 4607182418800017408 4611686018427387904 = 4613937818241073152 /\
+  f32_of_f64 4591870180066957722 = 1036831949 /\ f64_of_f32 1069547520 = 4609434218613702656 /\
+  f32_truncf 3217031168 = 3212836864 /\ f32_rndne 1075838976 = 1073741824 /\   (* trunc(-1.5) = -1; rndne(2.5) = 2 *)
+  go_cvt_u32 1333788672 = 4294967295 /\ go_cvt_i32 3472883713 = 2147483648.  (* 2^32 saturates; -2^31-256 -> MinInt32 *)
+Proof. vm_compute. repeat split; reflexivity. Qed.
